@@ -90,11 +90,38 @@ func indexUnquoted(s string, c byte) int {
 	return -1
 }
 
-// splitUnquoted cuts s at every sep which is not inside a quoted-string
+// indexTopLevel is indexUnquoted which also leaves alone what is inside the
+// angle brackets of a name-addr: the ',' of <sip:a,b@example.com> does not end a list element
+func indexTopLevel(s string, c byte) int {
+	quoted := false
+	inAngle := false
+	for i := 0; i < len(s); i++ {
+		if quoted {
+			if s[i] == '\\' {
+				// quoted-pair: the next character is taken literally
+				i++
+			} else if s[i] == '"' {
+				quoted = false
+			}
+		} else if s[i] == '"' {
+			quoted = true
+		} else if s[i] == '<' {
+			inAngle = true
+		} else if s[i] == '>' {
+			inAngle = false
+		} else if s[i] == c && !inAngle {
+			return i
+		}
+	}
+	return -1
+}
+
+// splitUnquoted cuts s at every sep which is neither inside a quoted-string
+// nor inside the angle brackets of a name-addr
 func splitUnquoted(s string, sep byte) []string {
 	parts := make([]string, 0)
 	for {
-		pos := indexUnquoted(s, sep)
+		pos := indexTopLevel(s, sep)
 		if pos == -1 {
 			return append(parts, s)
 		}
